@@ -666,6 +666,15 @@ def run_drill(case, rec, rng, scene):
         return run_drill_lazy(case, rec, rng, scene, grp, expected, where)
     store0 = hole_store(grp)
     target = scene.target(case["target"], grp)
+    if mode == 1:
+        # the workspace that receives the copy already holds a drillhole group of its own (created first)
+        from geoh5py.groups import DrillholeGroup
+
+        local = DrillholeGroup.create(target.workspace, name="local holes")
+        lh = Drillhole.create(target.workspace, parent=local, name="local", collar=[9.0, 9.0, 9.0], surveys=np.array([[0.0, 0.0, -90.0], [10.0, 0.0, -90.0]]))
+        lh.add_data({"local log": {"depth": np.array([1.0, 2.0]), "values": np.array([5.0, 6.0])}})
+        local = lh = None
+        rec.see("target-with-its-own-drillhole-group")
     dig0 = snap.node_digests(snap.raw_snapshot(scene.ws.geoh5))
     try:
         new = grp.copy(parent=target)
